@@ -676,6 +676,16 @@ def check(case):
                                                   'the unsorted inputs')
             if list(order) != list(range(len(tm))):
                 case.labels.append('presorted_filter:nontrivial')
+            # the sorted composed filter nested inside another composed filter: it keeps its remembered order
+            import chi
+            if isinstance(f4, chi.ComposedPopulationFilter):
+                f5 = rf.build(s['parts'], _obs(s), s['composed'])
+                f5.sort_times(order.copy())
+                P5 = build(dict(s, times=[float(v) for v in tm[order]]), filt=chi.ComposedPopulationFilter([f5]))
+                c_ = P5(v0.copy())
+                if np.isfinite(a):
+                    case.close(c_, a, rtol=1e-12, what='posterior from a sorted composed filter nested in another composed '
+                                                      'filter vs posterior from the unsorted inputs')
 
     with case.clause('counts'):
         case.equal(int(P.n_parameters()), L['n_total'], 'n_parameters()')
